@@ -97,7 +97,7 @@ Definition pad_ok (n nmax spacing : Z) (buckets : list Z) : bool :=
 Definition pad_max_last (n spacing : Z) (buckets : list Z) : Z :=
   fold_right Z.max (-1) (map (pad_last n spacing) buckets).
 
-(** ** KickMap::updateSM (tree after `fix:` 49f6ba4): the range test is made on the float
+(** ** KickMap::updateSM (tree after `fix:` fbbfcf6): the range test is made on the float
     integer part and the conversion [jd = qp_int] happens only inside it; everything else
     takes the "index n/2, weight 0" branch.  Inside the range this is [sm_entry] of
     Model/Kick.v.  [sm_entry_c] is the pinned tree: conversion first, undefined outside
@@ -107,7 +107,7 @@ Definition sm_in_range (n : Z) (o : Qc) : bool :=
 Definition sm_entry_g (n it : Z) (o : Qc) (j1 : Z) : Z * Qc :=
   if sm_in_range n o then sm_entry n it o j1 else (n / 2, 0%Qc).
 Definition sm_entry_c (n it : Z) (o : Qc) (j1 : Z) : option (Z * Qc) :=
-  if sm_defined n o then Some (sm_entry n it o j1) else None.
+  if sm_defined_pinned n o then Some (sm_entry n it o j1) else None.
 
 (** KickMap::apply: source cell of output cell [t] (along the kick) through table index [h],
     [None] when the unsigned test rejects it; flat data index for both directions *)
@@ -184,7 +184,7 @@ Definition fp_table (n dt : Z) (zb : Qc) (damping : bool) : option (list Z) :=
 Definition fp_apply_read (n b x idx : Z) : Z := wrap32 (wrap32 (b * n * n) + x * n + idx).
 
 (** ** Impedance::operator+= : for i < min(_nfreqs, rhs._nfreqs) reads rhs._data[i] and
-    writes _data[i] (the tree after `fix:` c1e89a5 of C16).  [imp_sum_reads_pinned] is the
+    writes _data[i] (the tree after `fix:` 8635aab of C16).  [imp_sum_reads_pinned] is the
     loop of the pinned tree (i < _nfreqs), kept for the refutation that documents the finding. *)
 Definition imp_sum_reads (lhs_n rhs_n : Z) : list Z := zrange (Z.min lhs_n rhs_n).
 Definition imp_sum_reads_pinned (lhs_n : Z) : list Z := zrange lhs_n.
